@@ -138,8 +138,8 @@ func c15(c *Ctx) {
 		}
 		setEvalCfg(evalCfgs[0])
 	}
-	nPlay := c.Size(150, 5000)
-	nSynth := c.Size(2500, 80000)
+	nPlay := c.Size(150, 40000)
+	nSynth := c.Size(2500, 600000)
 	sampled := 0
 	forEachGame(c, "c15", nPlay, 90, nSynth, func(g Game) {
 		p := engPos(g.Start.FEN())
